@@ -81,6 +81,76 @@ func facts(root string) {
 			out["serKeys"] = keys
 		}
 	}
+	// --- merklize/merklize.go: convertStringToXSDValue's switch (which datatypes are converted, the boolean spellings)
+	if f := parse("merklize/merklize.go"); f != nil {
+		dtName := func(e ast.Expr) string {
+			switch x := e.(type) {
+			case *ast.BinaryExpr: // ld.XSDNS + "name"
+				if sel, ok := x.X.(*ast.SelectorExpr); ok && sel.Sel.Name == "XSDNS" && x.Op == token.ADD {
+					if s, ok := strLit(x.Y); ok {
+						return "xsd:" + s
+					}
+				}
+			case *ast.SelectorExpr: // ld.XSDInteger
+				if strings.HasPrefix(x.Sel.Name, "XSD") && len(x.Sel.Name) > 3 {
+					n := strings.TrimPrefix(x.Sel.Name, "XSD")
+					return "xsd:" + strings.ToLower(n[:1]) + n[1:]
+				}
+			}
+			return "?"
+		}
+		for _, d := range f.Decls {
+			fd, ok := d.(*ast.FuncDecl)
+			if !ok || fd.Name.Name != "convertStringToXSDValue" || fd.Body == nil {
+				continue
+			}
+			var outer *ast.SwitchStmt
+			for _, st := range fd.Body.List {
+				if sw, ok := st.(*ast.SwitchStmt); ok {
+					outer = sw
+				}
+			}
+			if outer == nil {
+				continue
+			}
+			cases := [][]string{}
+			for _, st := range outer.Body.List {
+				cc := st.(*ast.CaseClause)
+				var names []string
+				for _, e := range cc.List {
+					names = append(names, dtName(e))
+				}
+				if names != nil {
+					cases = append(cases, names)
+				}
+				if len(names) == 1 && names[0] == "xsd:boolean" {
+					for _, b := range cc.Body {
+						inner, ok := b.(*ast.SwitchStmt)
+						if !ok {
+							continue
+						}
+						for _, ist := range inner.Body.List {
+							icc := ist.(*ast.CaseClause)
+							var lits []string
+							for _, e := range icc.List {
+								if s, ok := strLit(e); ok {
+									lits = append(lits, s)
+								}
+							}
+							for _, bs := range icc.Body {
+								if as, ok := bs.(*ast.AssignStmt); ok && len(as.Rhs) == 1 {
+									if id, ok := as.Rhs[0].(*ast.Ident); ok && (id.Name == "true" || id.Name == "false") {
+										out["xsdBool:"+id.Name] = lits
+									}
+								}
+							}
+						}
+					}
+				}
+			}
+			out["xsdConvertCases"] = cases
+		}
+	}
 	// --- json/parser.go: GetFieldSlotIndex's switch (field of slotsPaths -> slot index, in the order of the cases)
 	if f := parse("json/parser.go"); f != nil {
 		sw := [][2]any{}
